@@ -95,6 +95,7 @@ def aggregate(prop, mod, tier, seed, results, reach, totals, lost, t0):
     sigs = set()
     unknown_findings, known_hits = [], {}
     samples = []
+    out_lines_early = []
     for r in results:
         for k, v in r.get("counters", {}).items():
             counters[k] = counters.get(k, 0) + v
@@ -115,6 +116,8 @@ def aggregate(prop, mod, tier, seed, results, reach, totals, lost, t0):
         elif st == "inconclusive":
             inconclusive += 1
             reasons[r.get("reason", "?")] = reasons.get(r.get("reason", "?"), 0) + 1
+            if r.get("trace") and not any(l.startswith("harness trace") for l in out_lines_early):
+                out_lines_early.append("harness trace (%s, case %s): %s" % (r.get("reason"), json.dumps(r["case"]), r["trace"][-700:]))
         else:
             held += max(1, len(r.get("sigs") or []))
             if r.get("sigs"):
@@ -125,7 +128,7 @@ def aggregate(prop, mod, tier, seed, results, reach, totals, lost, t0):
             if len(samples) < 3 and r.get("sig") is not None:
                 samples.append({"case": r["case"], "sig": r.get("sig"), "observed": r.get("observed", {}),
                                 "counters": r.get("counters", {})})
-    out_lines = []
+    out_lines = list(out_lines_early)
     rdir = os.path.join(ROOT, "replays", prop)
     replay_paths = []
     shutil.rmtree(rdir, ignore_errors=True)
